@@ -40,6 +40,16 @@ TEXT["C13"] = (TEXT["C13"][0] + " End to end: World.tla (physical keyboard with 
 TEXT["C03"] = (TEXT["C03"][0] + " The end-to-end clause (from scancodes) is exercised by the World.tla behaviour replay with real layouts.", TEXT["C03"][1])
 TEXT["C18"] = (TEXT["C18"][0] + " A per-operation sweep applies every input of every entry point (2681 operations) in every sampled frame x scancode x event context and TLC requires that only fed stages change and that no result depends on a stage the call does not read.", TEXT["C18"][1])
 
+TEXT["C14"] = (TEXT["C14"][0] + " Also: objects constructed with HandleControl::Ignore; Conf_EventLayouts - EventDecoder<AnyLayout> with the ten real layouts in all 512 x 2 states x 124 keys must return exactly the layout table's cell (1.27M cells); spec-mode trace validation of the repository's own scenarios, random / typist / pipeline drivers and ALL sequences of 3 (thorough: 4) realistic actions.", TEXT["C14"][1] + " + T + V")
+TEXT["C04"] = (TEXT["C04"][0] + " Plus replay of the TLC-exported event automaton (all input pairs from sampled / all states, long periodic streams) and spec-mode trace validation including all sequences of 3 (4) realistic actions.", TEXT["C04"][1] + " + R + V")
+TEXT["C19"] = (TEXT["C19"][0] + " The predicates are evaluated from the initial state and from every behaviourally distinct state reachable after one complete sequence.", TEXT["C19"][1])
+TEXT["C13"] = (TEXT["C13"][0] + " Conf_Xlate explores the synchronous product of the two extracted automata under all histories of key actions.", TEXT["C13"][1])
+TEXT["C07"] = (TEXT["C07"][0] + " 'Back in the initial condition' is behavioural (Moore class of the extracted automaton), and the extracted automaton itself is replayed into the real decoder over all 2^24 (thorough: 2^32) streams plus long periodic streams.", TEXT["C07"][1] + " + R (self-replay)")
+TEXT["C08"] = (TEXT["C08"][0] + " Includes the stages built through Default, the event decoder with the real layouts, and the long periodic replay streams (hidden counters).", TEXT["C08"][1] + " + R")
+TEXT["C06"] = (TEXT["C06"][0] + " Link.tla adds the wire (bit flips, lost clock pulses, host timeout-clear) with a hazard configuration in which TLC must find the violation; the exported frame automaton is replayed over all ordered frame pairs, clear() from every partial state, and long periodic bit streams.", TEXT["C06"][1] + " + R")
+TEXT["C01"] = (TEXT["C01"][0] + " Plus replay of the TLC-exported table over all 2^24 (thorough 2^32) byte streams and long periodic streams, the Default-constructed decoder, and spec-mode trace validation through Keyboard (bytes interleaved with the events they produce).", TEXT["C01"][1] + " + R + V")
+TEXT["C02"] = (TEXT["C02"][0] + " Plus replay of the TLC-exported table over all 2^24 (thorough 2^32) byte streams, the Default-constructed decoder and spec-mode trace validation.", TEXT["C02"][1] + " + R + V")
+
 def main():
     checks = []
     for pid in sorted(pkverif.PROPS):
